@@ -584,6 +584,9 @@ func TestC05(t *testing.T) {
 			}
 		})
 	})
+	t.Run("validatorChange", func(t *testing.T) {
+		ev.Check(t, 60, 1500, func(rt *rapid.T) { c05ValidatorChange(rt, rec) })
+	})
 	t.Run("import", func(t *testing.T) {
 		// the package-global logger (db writer etc.) is at debug level: quieten it for this sub-check
 		gl := log.GlobalLogger()
@@ -649,4 +652,237 @@ func c05Trim(err error) string {
 		s = s[:60]
 	}
 	return s
+}
+
+
+// ---- the validator set "designated by its parent" when the set changes ----
+//
+// A chain is built on a real node: genesis names the old set O; block 1 carries a transaction that
+// replaces the validator set by N (drawn: members leave, new keys join, the size - and with it the
+// threshold - changes). The votes for block k are verified against the set designated by block k-1
+// (the next-validators of block k-1, which lags the execution result by one block), so blocks 1 and 2
+// are still certified by O and block 3 is the first one that must be certified by N. Block 4 is proposed
+// with a full certificate of N for block 3, then its certificate is replaced by a drawn one (all of N,
+// around N's threshold, members of O only, enough for O's threshold but not for N's, mixtures) and the
+// block is imported. Reference: accept <=> all signers are distinct members of N and 3*signers > 2*|N|.
+
+func c05Cert(tg c05Target, keys []int, ts int64) []byte {
+	w := &c05Wire{Round: tg.round, PSID: tg.psid(), Items: []c05Item{}}
+	for i, k := range keys {
+		w.Items = append(w.Items, c05Item{Timestamp: ts + int64(i), Signature: c05Sign(k, tg, ts+int64(i))})
+	}
+	return codec.BC.MustMarshalToBytes(w)
+}
+
+func c05ValidatorChange(rt *rapid.T, rec *ev.Rec) {
+	nOld := rapid.IntRange(1, 7).Draw(rt, "nOld")
+	// new set: drawn subset of the old keys plus 0..5 new keys (indices 20..)
+	var newKeys []int
+	for i := 0; i < nOld; i++ {
+		if rapid.IntRange(0, 2).Draw(rt, "stay") != 0 {
+			newKeys = append(newKeys, i)
+		}
+	}
+	for i, n := 0, rapid.IntRange(0, 5).Draw(rt, "joining"); i < n; i++ {
+		newKeys = append(newKeys, 20+i)
+	}
+	if len(newKeys) == 0 {
+		newKeys = []int{20}
+	}
+	inNew := map[int]bool{}
+	for _, k := range newKeys {
+		inNew[k] = true
+	}
+	oldKeys := make([]int, nOld)
+	for i := range oldKeys {
+		oldKeys[i] = i
+	}
+	env, problem := c05NewImportEnv(nOld)
+	defer func() {
+		if env != nil {
+			env.close()
+		}
+	}()
+	if problem != "" {
+		ev.Inconclusive("C05 validator change: cannot assemble a node: %s", problem)
+	}
+	node := env.node
+	// c05NewImportEnv finalized block 1 without transactions: the change goes into block 2, so the first
+	// block certified by N is block 4 and the candidate is block 5
+	addrs := make([]module.Address, len(newKeys))
+	for i, k := range newKeys {
+		addrs[i] = gen.WalletFromIndex(k).Address()
+	}
+	tgFor := func(blk module.Block) c05Target {
+		return c05Target{height: blk.Height(), round: 0, vtype: consensus.VoteTypePrecommit, psCount: 1, psHash: 7, realID: blk.ID()}
+	}
+	step := func(what string, f func()) {
+		f()
+		if len(env.tt.errs) > 0 {
+			ev.Inconclusive("C05 validator change: %s: %s", what, strings.Join(env.tt.errs, "; "))
+		}
+	}
+	ts := int64(1000)
+	step("block 2 (carries the validator change)", func() {
+		node.ProposeFinalizeBlockWithTX(consensus.NewCommitVoteSetFromBytes(c05Cert(tgFor(node.LastBlock), oldKeys, ts)), node.NewTx().SetValidators(addrs...).String())
+	})
+	ts += 100
+	step("block 3", func() {
+		node.ProposeFinalizeBlock(consensus.NewCommitVoteSetFromBytes(c05Cert(tgFor(node.LastBlock), oldKeys, ts)))
+	})
+	ts += 100
+	step("block 4 (first block voted by the new set)", func() {
+		node.ProposeFinalizeBlock(consensus.NewCommitVoteSetFromBytes(c05Cert(tgFor(node.LastBlock), oldKeys, ts)))
+	})
+	ts += 100
+	blk4 := node.LastBlock
+	// sanity of the harness' reading of the lag: block 4's voters are the new set
+	tg := tgFor(blk4)
+	full := consensus.NewCommitVoteSetFromBytes(c05Cert(tg, newKeys, ts))
+	bc, err, cbErr := gtest.ProposeBlock(node.BM, blk4.ID(), full)
+	if err != nil || cbErr != nil {
+		// The node does not take N's certificate for block 4. If it takes a certificate of the OLD set instead
+		// although that one is not acceptable by the reference, the block manager accepts block 4 as committed
+		// on votes of the wrong validator set (Propose verifies the votes it is given exactly like Import).
+		refOld := 3*nOld > 2*len(newKeys)
+		for _, k := range oldKeys {
+			if !inNew[k] {
+				refOld = false
+			}
+		}
+		bc2, err2, cbErr2 := gtest.ProposeBlock(node.BM, blk4.ID(), consensus.NewCommitVoteSetFromBytes(c05Cert(tg, oldKeys, ts)))
+		if err2 == nil && cbErr2 == nil {
+			bc2.Dispose()
+			if !refOld {
+				rec.Case(fmt.Sprintf("validatorChange old=%v new=%v: propose on block 4", oldKeys, newKeys), true, "validatorChange", "validatorChange:wrongSetAccepted")
+				rt.Fatalf("C05 violated: block 4 is accepted as committed with the votes of the previous validator set %v (Propose on it succeeds) and not with those of the set %v designated by its parent (%v)", oldKeys, newKeys, err)
+			}
+		}
+		ev.Inconclusive("C05 validator change: block 5 with the full certificate of the new set cannot be proposed (old=%v new=%v): %v %v", oldKeys, newKeys, err, cbErr)
+	}
+	var hb, bb bytes.Buffer
+	if bc.MarshalHeader(&hb) != nil || bc.MarshalBody(&bb) != nil {
+		ev.Inconclusive("C05 validator change: cannot serialise block 5")
+	}
+	bc.Dispose()
+	if _, err := codec.BC.UnmarshalFromBytes(hb.Bytes(), &env.header); err != nil {
+		ev.Inconclusive("C05 validator change: %v", err)
+	}
+	if _, err := codec.BC.UnmarshalFromBytes(bb.Bytes(), &env.body); err != nil {
+		ev.Inconclusive("C05 validator change: %v", err)
+	}
+	nNew := len(newKeys)
+	needNew := nNew*2/3 + 1
+	needOld := nOld*2/3 + 1
+	// certificate to present
+	var signers []int
+	mode := rapid.SampledFrom([]string{"allNew", "newAtThreshold", "newBelowThreshold", "oldOnly", "oldThresholdOnly", "mixed", "leaversAdded"}).Draw(rt, "mode")
+	var leavers []int
+	for _, k := range oldKeys {
+		if !inNew[k] {
+			leavers = append(leavers, k)
+		}
+	}
+	perm := func(ks []int, label string) []int {
+		out := make([]int, len(ks))
+		for i, j := range c05Perm(rt, len(ks), label) {
+			out[i] = ks[j]
+		}
+		return out
+	}
+	switch mode {
+	case "allNew":
+		signers = perm(newKeys, "p")
+	case "newAtThreshold":
+		signers = perm(newKeys, "p")[:needNew]
+	case "newBelowThreshold":
+		signers = perm(newKeys, "p")[:needNew-1]
+	case "oldOnly":
+		signers = perm(oldKeys, "p")
+	case "oldThresholdOnly":
+		signers = perm(oldKeys, "p")[:needOld]
+	case "mixed":
+		all := append(append([]int{}, newKeys...), leavers...)
+		k := rapid.IntRange(0, len(all)).Draw(rt, "count")
+		signers = perm(all, "p")[:k]
+	default:
+		signers = append(perm(newKeys, "p")[:needNew-1], leavers...)
+	}
+	want := true
+	seen := map[int]bool{}
+	for _, k := range signers {
+		if !inNew[k] || seen[k] {
+			want = false
+		}
+		seen[k] = true
+	}
+	if 3*len(signers) <= 2*nNew {
+		want = false
+	}
+	votes := c05Cert(tg, signers, ts)
+	h, b := env.header, env.body
+	b.Votes = votes
+	h.VotesHash = crypto.SHA3Sum256(votes)
+	var tss []int64
+	for i := range signers {
+		tss = append(tss, ts+int64(i))
+	}
+	if len(tss) > 0 {
+		sort.Slice(tss, func(i, j int) bool { return tss[i] < tss[j] })
+		if l := len(tss); l%2 == 1 {
+			h.Timestamp = tss[l/2]
+		} else {
+			h.Timestamp = (tss[l/2-1] + tss[l/2]) / 2
+		}
+	}
+	var buf bytes.Buffer
+	buf.Write(codec.BC.MustMarshalToBytes(&h))
+	buf.Write(codec.BC.MustMarshalToBytes(&b))
+	accepted, ierr, panicked := func() (acc bool, ierr error, pn interface{}) {
+		defer func() {
+			if r := recover(); r != nil {
+				pn = fmt.Sprintf("%v", r)
+			}
+		}()
+		ch := make(chan module.BlockCandidate, 1)
+		canceler, err := node.BM.Import(&buf, 0, func(bc module.BlockCandidate, err error) { ch <- bc })
+		if err != nil {
+			return false, err, nil
+		}
+		if !canceler.Cancel() {
+			select {
+			case bc := <-ch:
+				if bc != nil {
+					bc.Dispose()
+				}
+			case <-time.After(10 * time.Second):
+			}
+		}
+		return true, nil, nil
+	}()
+	desc := fmt.Sprintf("validatorChange old=%v new=%v (need %d of %d; old rule needs %d of %d) mode=%s signers=%v", oldKeys, newKeys, needNew, nNew, needOld, nOld, mode, signers)
+	labels := []string{"validatorChange", "validatorChange:" + mode}
+	if want {
+		labels = append(labels, "validatorChange:expectAccept")
+	} else {
+		labels = append(labels, "validatorChange:expectReject")
+	}
+	oldRuleAccepts := len(signers) >= needOld
+	for _, k := range signers {
+		if k >= nOld {
+			oldRuleAccepts = false
+		}
+	}
+	rec.Case(desc, oldRuleAccepts != want, labels...)
+	switch {
+	case panicked != nil:
+		rt.Fatalf("C05 violated: Import panicked (%v) | %s", panicked, desc)
+	case accepted && !want:
+		rt.Fatalf("C05 violated: block 5 accepted although its certificate for block 4 is not made of more than two thirds of distinct members of the validator set designated by block 3 | %s", desc)
+	case !accepted && want:
+		rec.Label("validatorChange:valid-list-rejected:" + c05Trim(ierr))
+		if mode == "allNew" {
+			ev.Inconclusive("C05 validator change: the full certificate of the new set is rejected at import (%v): the harness misreads which set votes for block 4 | %s", ierr, desc)
+		}
+	}
 }
